@@ -62,4 +62,14 @@ def main(argv=None):
 
 
 if __name__ == "__main__":
-    sys.exit(main())
+    try:
+        rc = main()
+        sys.stdout.flush()
+    except BrokenPipeError:
+        # reader went away (e.g. `| head`): keep the verdict, drop the rest of the output
+        try:
+            sys.stdout = open(os.devnull, "w")
+        except Exception:
+            pass
+        rc = 0
+    sys.exit(rc)
